@@ -61,6 +61,7 @@ def full():
 
 class Harness(cm.BaseA):
     id = "C11"
+    fresh_quick = True  # every transition is re-executed from a fresh world (hidden state, aliasing)
     rule = (
         "every sequence of <= depth core operations followed by any one operation of the full alphabet; the state "
         "is the complete history (no merging beyond identical histories); operations: add/remove/aspirate/dispense "
